@@ -190,6 +190,8 @@ class Lib:
                 if x[0] == "call" and x[1] == "floor_in" and len(x[2]) == 2 and self.is_unit(x[2][0]):
                     return "(q_floor (%s / %s))" % (t(x[2][1]), t(x[2][0]))
                 raise Unsupported("value_of of %r" % (x,))
+            if f == "floor" and len(args) == 1 and target == "Q":
+                return "(q_floor %s)" % t(args[0])
             if f == "floor_in" and len(args) == 2 and target == "Q":
                 return "(nbt_floor_in %s %s)" % (t(args[0]), t(args[1]))
             if f == "datetime" and len(args) == 1 and args[0][0] == "str":
@@ -250,6 +252,8 @@ class Lib:
                 if x[0] == "conv":
                     return e(x[1]) / e(x[2])
                 return self.floor(e(x[2][1]) / e(x[2][0]), exact)
+            if f == "floor":
+                return self.floor(e(args[0]), exact)
             if f == "floor_in":
                 b, v = e(args[0]), e(args[1])
                 return self.floor(v / b, exact) * b
@@ -259,7 +263,10 @@ class Lib:
             if f == "_unixtime_µs":
                 return self.trunc(e(args[0]) * 1000000, exact)
             if f == "_from_unixtime_µs":
-                return self.trunc(e(args[0]), exact) / 1000000
+                v = e(args[0])
+                r = math.floor(abs(v) + Fraction(1, 2)) if exact else math.floor(abs(v) + 0.5)     # f64::round
+                r = r if v >= 0 else -r
+                return (Fraction(r) if exact else float(r)) / 1000000
             if f in R_BUILTINS:
                 return getattr(math, f)(*[e(x) for x in args]) if f != "ln" else math.log(e(args[0]))
             return self.call(f, [e(x) for x in args], exact)
@@ -357,6 +364,67 @@ def close(a, b, rel=1e-9, abs_=1e-12):
     return abs(a - b) <= abs_ + rel * max(abs(a), abs(b))
 
 
+# supported instants: jiff Timestamp -377705023201 s ..= 253402207200 s (years -9999 .. 9999); the Julian epoch
+# (-4713-11-24 12:00 UTC) is at -210866846400 s, so about a quarter of the range has NEGATIVE Julian dates
+TS_MIN_S, TS_MAX_S, JULIAN_EPOCH_S = -377705023201, 253402207200, -210866846400
+
+
+def rand_instant_us(rng):
+    """an instant as whole microseconds since the Unix epoch, exactly representable as f64, with a sub-second part
+    wherever the magnitude allows it: uniform over the whole supported range, around the Unix and Julian epochs
+    (both signs), and near the ends of the range"""
+    r = rng.random()
+    if r < 0.35:
+        sec = rng.randrange(TS_MIN_S + 86400, TS_MAX_S - 86400)
+    elif r < 0.55:
+        sec = rng.randrange(-3 * 10 ** 9, 5 * 10 ** 9)                     # 1875 .. 2128, before and after 1970
+    elif r < 0.7:
+        sec = rng.choice([-1, 1]) * rng.randrange(0, 10 ** 5)              # hours around 1970
+    elif r < 0.85:
+        sec = JULIAN_EPOCH_S + rng.choice([-1, 1]) * rng.randrange(0, 10 ** rng.randrange(1, 11))
+    else:
+        sec = rng.choice([TS_MIN_S + 86400 + rng.randrange(10 ** 6), TS_MAX_S - 86400 - rng.randrange(10 ** 6)])
+    us = sec * 10 ** 6 + rng.randrange(0, 10 ** 6)
+    return int(float(us))                                                  # nearest f64-representable integer
+
+
+def rand_julian_days(rng):
+    """Julian dates over the supported range (about -1.93e6 .. 5.37e6 days), negative and fractional ones included"""
+    r = rng.random()
+    if r < 0.4:
+        return rng.uniform(-1.9e6, 5.3e6)
+    if r < 0.7:
+        return rng.choice([-1, 1]) * rng.uniform(0, 10 ** rng.randrange(0, 7))
+    if r < 0.85:
+        return -rng.randrange(1, 10 ** 6) - rng.randrange(1, 100000) / 100000.0   # e.g. -1234.56789
+    return float(rng.randrange(-10 ** 6, 3 * 10 ** 6))
+
+
+def gen_datetime_oracle_cases(rng, n):
+    """(pair, source, kind, expected, tolerance): both directions of every date-time pair of the library, on
+    instants / timestamps / Julian dates from the whole supported range"""
+    cs = []
+    for _ in range(n):
+        jd = rand_julian_days(rng)
+        cs.append(("julian_date∘from_julian_date", "from_julian_date(%s days) -> julian_date" % fl(jd), "Q", jd * 86400.0, 1e-3))
+        us = rand_instant_us(rng)
+        inst = "from_unixtime_µs(%d)" % us
+        cs.append(("from_julian_date∘julian_date", "from_julian_date(julian_date(%s))" % inst, "D", us * 1000, 10 ** 6))
+        # unixtime() is a number of seconds in f64: exact back to the microsecond below 2^50 µs, else within its ulp
+        cs.append(("from_unixtime∘unixtime", "from_unixtime(unixtime(%s))" % inst, "D", us * 1000,
+                   0 if abs(us) < 2 ** 50 else int(abs(us) * 1000 * 2.0 ** -50)))
+        # timestamps with a fractional part, both signs (from_unixtime keeps whole microseconds, rounding)
+        x = rng.choice([-1, 1]) * (rng.randrange(0, 10 ** rng.randrange(1, 11)) + rng.randrange(0, 10 ** 6) / 1e6)
+        cs.append(("unixtime∘from_unixtime", "unixtime(from_unixtime(%s unix_s))" % fl(x), "Q", x, 0.5e-6 + abs(x) * 4e-16))
+        k = rng.choice([-1, 1]) * rng.randrange(0, 10 ** rng.randrange(1, 12))
+        f = rng.choice(["s", "ms", "µs"])
+        cs.append(("unixtime_%s∘from_unixtime_%s" % (f, f), "unixtime_%s(from_unixtime_%s(%d))" % (f, f, k), "Q", float(k), 0.0))
+        # date-time ± a duration with a sub-second part of more than a second, both signs, then the difference
+        d = rng.choice([-1, 1]) * (rng.randrange(1, 10 ** rng.randrange(1, 8)) + rng.randrange(1, 10 ** 6) / 1e6)
+        cs.append(("(t + d) - t", "((%s + (%s s)) - %s) -> s" % (inst, fl(d), inst), "Q", d, 1e-9 + abs(d) * 1e-15))
+    return cs
+
+
 def gen_model_cases(rng, lib, n):
     """(kind, name, source text, python-argument) for model-vs-implementation comparison"""
     cs = []
@@ -367,16 +435,14 @@ def gen_model_cases(rng, lib, n):
         t = rng.choice([rng.uniform(0, 1000), rng.uniform(0, 1e6), float(rng.randrange(0, 5000))])
         cs.append(("K->scalar", "°C", "°C(%s K)" % fl(t), t))
         cs.append(("K->scalar", "°F", "°F(%s K)" % fl(t), t))
-        us = rng.randrange(-2 * 10 ** 17, 2 * 10 ** 17) if rng.random() < 0.5 else rng.randrange(0, 2 * 10 ** 15)
-        if abs(us) >= 2 ** 53:
-            us = (us >> 12) << 12          # keep the argument exactly representable
+        us = rand_instant_us(rng)
         inst = "from_unixtime_µs(%d)" % us
         tq = Fraction(us, 10 ** 6)
         cs.append(("dt->s", "julian_date", "julian_date(%s)" % inst, tq))
         cs.append(("dt->unix_s", "unixtime", "unixtime(%s)" % inst, tq))
         for f in ("unixtime_s", "unixtime_ms", "unixtime_µs"):
             cs.append(("dt->scalar", f, "%s(%s)" % (f, inst), tq))
-        jd = rng.uniform(0, 3e6)
+        jd = rand_julian_days(rng)
         cs.append(("days->dt", "from_julian_date", "from_julian_date(%s days)" % fl(jd), jd * 86400.0))
         s = rng.randrange(-10 ** 10, 10 ** 10)
         cs.append(("scalar->dt", "from_unixtime_s", "from_unixtime_s(%d)" % s, s))
@@ -535,7 +601,7 @@ def run(chk):
     chk.trusted += [
         "translator tools/props/c23.py + nbtexpr.py: .nbt arithmetic fragment -> Gen/NbtFunsQ.v, Gen/NbtFunsR.v (regenerated every run)",
         "quantities = magnitude in the base unit; DateTime = rational seconds since the Unix epoch; FFI _unixtime_µs/_from_unixtime_µs "
-        "modelled as truncation to whole microseconds without range limits (Stdlib/Model.v)",
+        "modelled as truncation (to) / rounding (from) to whole microseconds without range limits (Stdlib/Model.v)",
         "_mixed_unit_list and _clean_units (unique, sort descending) are hand ports (Stdlib/Model.v), compared with unit_list() on raw unit lists",
         "real-number theorems use the stdlib axioms listed per theorem",
     ]
@@ -548,8 +614,22 @@ def run(chk):
     oracle_cases = gen_oracle_cases(chk.rng, 40 if quick else 400)
     corpus = json.load(open(os.path.join(common.VERIF, "corpus", "c23.json")))
     for c in corpus:
-        oracle_cases.insert(0, (c["pair"], c["source"], c["x"], tuple(c["tol"])))
+        if "x" in c:
+            oracle_cases.insert(0, (c["pair"], c["source"], c["x"], tuple(c["tol"])))
     mixed_cases = gen_mixed_cases(chk.rng, 150 if quick else 2000)
+    # the documented wrappers of unit_list (units::mixed)
+    WRAPPERS = [("DMS", ["degree", "arcminute", "arcsecond"], "degree"), ("DM", ["degree", "arcminute"], "degree"),
+                ("feet_and_inches", ["foot", "inch"], "foot"), ("pounds_and_ounces", ["pound", "ounce"], "pound")]
+    wrapper_cases = []
+    for _ in range(40 if quick else 600):
+        fn, us, vu = chk.rng.choice(WRAPPERS)
+        v = chk.rng.choice([chk.rng.uniform(0, 400), float(chk.rng.randrange(0, 400)), chk.rng.randrange(1, 10 ** 5) / 3600.0,
+                            -chk.rng.uniform(0, 90), chk.rng.randrange(1, 1000) / 12.0])
+        wrapper_cases.append((fn, us, v, vu))
+    dt_cases = gen_datetime_oracle_cases(chk.rng, 80 if quick else 1500)
+    for c in corpus:
+        if c.get("kind") in ("Q", "D"):
+            dt_cases.insert(0, (c["pair"], c["source"], c["kind"], c["expected"], c["tol"]))
 
     # unit sizes in base units, measured on the implementation
     all_units = sorted({u for _, us in UNIT_FAMILIES for u in us})
@@ -557,11 +637,14 @@ def run(chk):
     sizes = {u: q_of_bits(o)[0] for u, o in zip(all_units, size_out)}
 
     lines = [c[2] for c in model_cases] + [c[1] for c in oracle_cases] + \
-            ["unit_list([%s], %s %s)" % (", ".join(us), fl(v), vu) for us, v, vu in mixed_cases]
+            ["unit_list([%s], %s %s)" % (", ".join(us), fl(v), vu) for us, v, vu in mixed_cases] + [c[1] for c in dt_cases] + \
+            ["%s(%s %s)" % (fn, fl(v), vu) for fn, us, v, vu in wrapper_cases]
     outs = common.run_harness(binary, "eval", lines)
+    o_wrap = outs[len(lines) - len(wrapper_cases):]
+    o_dt = outs[len(model_cases) + len(oracle_cases) + len(mixed_cases):len(lines) - len(wrapper_cases)]
     o_model = outs[:len(model_cases)]
     o_oracle = outs[len(model_cases):len(model_cases) + len(oracle_cases)]
-    o_mixed = outs[len(model_cases) + len(oracle_cases):]
+    o_mixed = outs[len(model_cases) + len(oracle_cases):len(model_cases) + len(oracle_cases) + len(mixed_cases)]
 
     # (1) implementation vs translated trees
     for (kind, name, src, arg), o in zip(model_cases, o_model):
@@ -641,6 +724,24 @@ def run(chk):
             fails.append({"pair": "unit_list", "source": "unit_list([%s], %s %s)" % (", ".join(us), fl(v), vu),
                           "implementation": o, "detail": why})
 
+    for (fn, us, v, vu), o in zip(wrapper_cases, o_wrap):
+        per_pair[fn] += 1
+        why = mixed_check(us, v, vu, o, sizes)
+        if why:
+            fails.append({"pair": fn, "source": "%s(%s %s)" % (fn, fl(v), vu), "implementation": o, "detail": why})
+    for (name, src, kind, want, tol), o in zip(dt_cases, o_dt):
+        per_pair[name] += 1
+        if kind == "Q":
+            q = q_of_bits(o)
+            ok = q is not None and abs(q[0] - want) <= tol
+        else:
+            ok = o.startswith("D:") and abs(int(o.split(":")[1]) - want) <= tol
+        if o.startswith("E:runtime:DateTime out of range") or o.startswith("E:runtime:Exceeded"):
+            continue            # at the very ends of the range an intermediate value may leave it: an error is fine
+        if not ok:
+            fails.append({"pair": name, "source": src, "x": want, "implementation": o,
+                          "detail": "expected %s %r (tolerance %r), got %s" % (kind, want, tol, o)})
+
     known = [f for f in common.load_known() if f.get("property") == "C23" and f.get("status") == "open"]
     reported = 0
     seen = set()
@@ -670,20 +771,21 @@ def run(chk):
             "oracle": "round-trip oracle found no failing input among %d cases" % (len(oracle_cases) + len(mixed_cases)),
         }, found_input=False)
 
-    distinct = len({(c[0], c[1]) for c in oracle_cases}) + len({(tuple(u), v, vu) for u, v, vu in mixed_cases}) + \
+    distinct = len({c[1] for c in dt_cases}) + len({(c[0], c[1]) for c in oracle_cases}) + len({(tuple(u), v, vu) for u, v, vu in mixed_cases}) + \
         len({c[2] for c in model_cases})
     chk.cov.update({
         "evaluations": len(lines),
         "distinct_nontrivial": distinct,
         "rule": "model cases: every translated function on seeded random arguments (implementation vs translated tree, and Gallina Q "
                 "definition by vm_compute vs exact tree evaluation); oracle cases: every documented inverse pair on random arguments "
-                "from its domain; mixed-unit lists: random sub-lists of same-dimension prelude units (with duplicates) x random values; "
+                "from its domain; date-time pairs (Unix time, Julian date) in both directions on instants over the whole supported year range "
+                "(before 1970, before the Julian epoch, range ends), negative and fractional timestamps / Julian dates; mixed-unit lists: random sub-lists of same-dimension prelude units (with duplicates) x random values; "
                 "distinct = distinct source texts; all are non-trivial (no constant inputs)",
         "exhaustive": False,
         "translated_functions": [] if lib is None else list(lib.defs),
         "model_vs_implementation_cases": n_model, "model_vs_implementation_mismatches": len(mismatches),
         "coq_q_cases": n_q, "coq_q_mismatches": len(coq_bad),
-        "oracle_cases_per_pair": dict(per_pair), "mixed_unit_cases": len(mixed_cases),
+        "oracle_cases_per_pair": dict(per_pair), "mixed_unit_cases": len(mixed_cases), "datetime_pair_cases": len(dt_cases),
         "mixed_model_cases": n_mixed_model, "mixed_float_boundary_flips_tolerated": boundary_flips,
         "oracle_failures": len(fails),
         "samples": [{"source": lines[i], "implementation": outs[i]} for i in (0, len(model_cases), len(lines) - 1) if i < len(lines)],
